@@ -21,6 +21,7 @@
     skeleton_sees_every_suite shapes_cover_nesting shapes_probed
     plain_shapes_flag_independent pickle_preserves_flags
     memo_history_disabled_no_exec memo_cache_stays_code_free memo_later_load_code_free
+    memo_later_load_rejects_code
 -/
 import Genshi.Lemmas.ExecLru
 import Genshi.Lemmas.ExecRaise
@@ -951,15 +952,16 @@ section Memo
     template, evicted while being prepared, or parsed again under the same key -/
 theorem memo_history_disabled_no_exec (cap fuel pf : Nat) (fs : FS) (ar : Bool) (hist : List (Nat × Cls)) :
     (runHistoryM cap fuel pf fs (mst0 false ar) hist).sentinel = [] :=
-  (runHistoryM_clean cap fuel pf fs hist _ (mst0_clean ar)).2
+  (runHistoryM_clean cap fuel pf fs hist _ (mst0_clean fs ar)).2
 
 /-- at the end of every such history every cached template object is free of code blocks — its
     parsed items and, when it is prepared, its memoised prepared stream (which holds the spliced
-    streams of everything it inlined) -/
+    streams of everything it inlined) — and is the parse of the file of its name -/
 theorem memo_cache_stays_code_free (cap fuel pf : Nat) (fs : FS) (ar : Bool) (hist : List (Nat × Cls)) :
     ∀ e ∈ (runHistoryM cap fuel pf fs (mst0 false ar) hist).cache,
-      noCode e.2.t.items = true ∧ ∀ ps, e.2.prep = some ps → pNoCode ps = true :=
-  (runHistoryM_clean cap fuel pf fs hist _ (mst0_clean ar)).1.2
+      (noCode e.2.t.items = true ∧ ∀ ps, e.2.prep = some ps → pNoCode ps = true) ∧
+      ∃ f, fs.lookup e.1.1 = some f ∧ e.2.t.items = f.items :=
+  (runHistoryM_clean cap fuel pf fs hist _ (mst0_clean fs ar)).1.2
 
 /-- after every such history, whatever a later load returns — a cached, possibly prepared object or
     a fresh parse — is free of code blocks, and the load does not move the sentinel -/
@@ -967,9 +969,19 @@ theorem memo_later_load_code_free (cap fuel pf : Nat) (fs : FS) (ar : Bool) (his
     (name : Nat) (c : Cls) (abs : Bool) (st' : MSt) (o : MT)
     (h : loadM cap fs (runHistoryM cap fuel pf fs (mst0 false ar) hist) name c abs = .ok (st', o)) :
     noCode o.t.items = true ∧ (∀ ps, o.prep = some ps → pNoCode ps = true) ∧ st'.sentinel = [] := by
-  obtain ⟨hc, hs⟩ := runHistoryM_clean cap fuel pf fs hist _ (mst0_clean ar)
+  obtain ⟨hc, hs⟩ := runHistoryM_clean cap fuel pf fs hist _ (mst0_clean fs ar)
   obtain ⟨_, ho, hs'⟩ := loadM_clean cap fs _ st' name c abs o hc h
   exact ⟨ho.1, ho.2, hs'.trans hs⟩
+
+/-- **a later load rejects code**: after every such history, loading a file that contains a code
+    block — never loaded, or loaded, evicted and asked for again, under any bound — fails (never a
+    cached or prepared object); asked for in the language it is written in, with the
+    `TemplateSyntaxError` of that file -/
+theorem memo_later_load_rejects_code (cap fuel pf : Nat) (fs : FS) (ar : Bool) (hist : List (Nat × Cls))
+    (name : Nat) (c : Cls) (abs : Bool) (f : File) (hf : fs.lookup name = some f) (hcode : noCode f.items = false) :
+    ∃ e, loadM cap fs (runHistoryM cap fuel pf fs (mst0 false ar) hist) name c abs = .error e ∧
+      (f.syn = c → e = .syntax name) :=
+  loadM_code_fails cap fs _ name c abs f (runHistoryM_clean cap fuel pf fs hist _ (mst0_clean fs ar)).1 hf hcode
 
 -- non-vacuity: memoisation is state.  0 inlines 1 (bound 2): after rendering 0 twice the cache is
 -- [0, 1] with 0 prepared; the second render performed no load (1 was not touched again: with 1
